@@ -7,6 +7,7 @@ pub mod c02;
 pub mod c03;
 pub mod c05;
 pub mod c06;
+pub mod c07;
 pub mod c08;
 pub mod c09;
 pub mod c10;
@@ -17,7 +18,7 @@ pub mod c14;
 pub mod c15;
 pub mod c20;
 
-pub const ALL: &[&str] = &["C01", "C02", "C03", "C05", "C06", "C08", "C09", "C10", "C11", "C12", "C13", "C14", "C15", "C20"];
+pub const ALL: &[&str] = &["C01", "C02", "C03", "C05", "C06", "C07", "C08", "C09", "C10", "C11", "C12", "C13", "C14", "C15", "C20"];
 
 pub fn run(id: &str, ctx: &RunCtx) -> i32 {
     match id {
@@ -26,6 +27,7 @@ pub fn run(id: &str, ctx: &RunCtx) -> i32 {
         "C03" => c03::run(ctx),
         "C05" => c05::run(ctx),
         "C06" => c06::run(ctx),
+        "C07" => c07::run(ctx),
         "C08" => c08::run(ctx),
         "C09" => c09::run(ctx),
         "C10" => c10::run(ctx),
@@ -60,6 +62,7 @@ pub fn replay(path: &str) -> i32 {
         "C03" => c03::replay(&v),
         "C05" => c05::replay(&v),
         "C06" => c06::replay(&v),
+        "C07" => c07::replay(&v),
         "C08" => c08::replay(&v),
         "C09" => c09::replay(&v),
         "C10" => c10::replay(&v),
